@@ -38,7 +38,10 @@ type Phase struct {
 	// CrashIsViolation: a worker that dies is an observation about the input it
 	// was running (C03/C09) instead of an internal error.
 	CrashIsViolation bool
-	Fn               func(r *Run)
+	// ProcsFn, when set, gives the number of shards for a tier (used by phases
+	// that run every item in a process of its own).
+	ProcsFn func(tier string) int
+	Fn      func(r *Run)
 }
 
 var registry = map[string]*Check{}
@@ -538,6 +541,9 @@ func ParentMain(id, tier string) int {
 		ph := &c.Phases[pi]
 		phaseOf[ph.Name] = ph
 		n := ph.Procs
+		if ph.ProcsFn != nil {
+			n = ph.ProcsFn(tier)
+		}
 		if n <= 0 {
 			n = defaultProcs()
 		}
@@ -548,8 +554,11 @@ func ParentMain(id, tier string) int {
 			tail string
 		}
 		ch := make(chan res, n)
+		sem := make(chan struct{}, defaultProcs())
 		for i := 0; i < n; i++ {
 			go func(i int) {
+				sem <- struct{}{}
+				defer func() { <-sem }()
 				out := filepath.Join(tmp, fmt.Sprintf("%s-%d.json", ph.Name, i))
 				cmd := exec.Command(bin, "shard", id, tier, ph.Name, strconv.Itoa(i), strconv.Itoa(n), out)
 				cmd.Env = append(os.Environ(), "GOMAXPROCS=2", "GOTRACEBACK=single")
@@ -566,7 +575,11 @@ func ParentMain(id, tier string) int {
 			b, rerr := os.ReadFile(out)
 			if rs.err != nil || rerr != nil {
 				if pt := readCur(out + ".cur"); pt != nil && rerr != nil {
-					v := &Violation{Sig: id + "/worker-died/" + classifyCrash(rs.tail), Desc: "worker process died while executing this input: " + firstLine(rs.tail),
+					sig := id + "/worker-died/" + classifyCrash(rs.tail)
+					if e, _ := pt["expr"].(string); strings.HasPrefix(e, "family:") {
+						sig += "/" + strings.Fields(e)[0]
+					}
+					v := &Violation{Sig: sig, Desc: "worker process died while executing this input: " + firstLine(rs.tail),
 						Point: pt, Expected: "call returns normally", Actual: "process killed: " + trunc(rs.tail, 600), Phase: ph.Name}
 					total.Violate(v)
 					total.Cap("worker-died (rest of its shard not explored)")
@@ -737,6 +750,7 @@ func rejudge(work, build, id, tmp string, v *Violation) bool {
 
 // JudgeMain re-judges one recorded point in this process.
 func JudgeMain(file string) int {
+	limitMemory()
 	b, err := os.ReadFile(file)
 	if err != nil {
 		fmt.Fprintln(os.Stderr, "jmc:", err)
